@@ -667,3 +667,17 @@ func copyTree(src, dst string) error {
 		return os.WriteFile(t, b, 0o600)
 	})
 }
+
+// addNode starts a fresh node (id = len(nodes)+1) the way `--join` does: no bootstrap peers, the
+// configured peer list includes itself.  The cluster must have committed the matching rconf add.
+func (s *sim) addNode() int {
+	id := len(s.nodes) + 1
+	s.peers = append(s.peers, fmt.Sprintf("http://127.0.0.1:%d", 20000+id-1))
+	n := &node{id: id, dir: filepath.Join(s.root, fmt.Sprintf("n%d", id))}
+	n.cond = sync.NewCond(&n.mu)
+	s.nodes = append(s.nodes, n)
+	raftexample.VerifJoin = true
+	s.startNode(n, s.peers)
+	raftexample.VerifJoin = false
+	return id - 1
+}
